@@ -11,7 +11,7 @@ from . import driver_engine as eng
 LEVEL = "model_checking"
 ENVS = [None, {"LC_ALL": "C"}, {"LC_ALL": "de_DE.UTF-8", "LANG": "de_DE.UTF-8"}, {"HOME": "/nonexistent"},
         {"TZ": "Asia/Tokyo"}, {"MALLOC_PERTURB_": "165"}, {"UNC_VERIF_TRACE": "aux_trace.ndjson", "UNC_VERIF_PASS": "1"}]
-OBS = ["L", "s", "ds_for_p", "dot", "dd"]
+OBS = ["L", "s", "ds_for_p", "dot", "dd", "LA"]
 
 
 def build_pool(ctx, unc, cfg, root, n):
@@ -112,10 +112,45 @@ def run(ctx):
             obs = [o for o in OBS if ctx.rng.random() < 0.3]
             env = ctx.rng.choice(ENVS)
             n += 1
-            jobs.append((n, inv, fs, obs, env))
+            jobs.append((n, inv, fs, obs, env, cfg))
+    # the configuration is one of the four things the bytes may depend on: worlds under other configurations (every option
+    # set at random; all align_ / cmt_ / nl_ families on) hold the dense programs of vlib/hazard.py in every language; every
+    # single-file command line is executed there with at least one observer option (-L A logs every severity)
+    from .. import cfggen, hazard
+    xcfgs = [cfggen.random_full_config(ctx.rng, unc, keep_default=ctx.rng.choice([0.0, 0.4])).replace("\ncode_width=", "\n#code_width=")
+             for _ in range(5 if quick else 40)]
+    reg = cfggen.registry(unc)
+    for pre in ("align_", "nl_", "sp_"):
+        xcfgs.append("".join("%s=%s\n" % (o["name"], {"bool": "true", "unum": "3", "iarf": "force", "num": "3"}[o["kind"]]) for o in reg
+                             if o["name"].startswith(pre) and o["kind"] in ("bool", "unum", "iarf", "num") and "thresh" not in o["name"]))
+    single = [inv for inv in invs if len(inv["files"]) == 1]
+    nx = 0
+    for k, ctext in enumerate(xcfgs):
+        rk = os.path.join(root, "x%d" % k)
+        os.makedirs(rk, exist_ok=True)
+        ck = os.path.join(rk, "x.cfg")
+        open(ck, "w").write(ctext)
+        xpool = []
+        for lang, text in sorted(hazard.DENSE.items()):
+            name = "d%d%s" % (k, hazard.EXT[lang])
+            rc, fmt = drv.ref_format(unc, ck, name, text.encode(), cwd=rk)
+            if rc == 0:
+                f = drv.FileSpec(name, text.encode(), fmt, "fmt" if fmt == text.encode() else "unf", lang)
+                f.orig = "dense:%s|cfg%d" % (lang, k)
+                xpool.append(f)
+        for f in xpool:
+            cand = [inv for inv in single if inv["files"][0] == f.cls]
+            for inv in ctx.rng.sample(cand, min(len(cand), 6 if quick else 16)):
+                obs = [o for o in OBS if ctx.rng.random() < 0.3]
+                if not ({"L", "LA", "s"} & set(obs)):
+                    obs.append(ctx.rng.choice(["LA", "LA", "L", "s"]))
+                n += 1
+                nx += 1
+                jobs.append((n, inv, [f], obs, ctx.rng.choice(ENVS), ck))
+    ctx.cov["invocations_under_other_configurations"] = nx
 
     def do(job):
-        n, inv, fs, obs, env = job
+        n, inv, fs, obs, env, cfg = job
         d = os.path.join(ctx.work.path, "r%06d" % n)
         # with -l the reference is the -l run (identical to the extension run on this tree, checked below)
         o = drv.execute(unc, cfg, inv["a"], fs, d, obs=obs, env=env)
